@@ -124,9 +124,15 @@ def shapes(slice_i, n):
         yield {"model": spec, "points": None}
 
 
+def mixed(slice_i, n):
+    from vf import strategies as S_
+    for spec in S_.mixed_shapes(slice_i, n):
+        yield {"model": spec, "points": None}
+
+
 def parts(tier):
     q = tier == "quick"
-    return [Part("shapes%d" % i, enumerate_cases=(lambda t, i=i: shapes(i, 4)), check=check_model, time_quick=120.0) for i in range(4)] + [
+    return [Part("mixed%d" % i, enumerate_cases=(lambda t, i=i: mixed(i, 8)), check=check_model, time_quick=150.0) for i in range(8)] + [Part("shapes%d" % i, enumerate_cases=(lambda t, i=i: shapes(i, 4)), check=check_model, time_quick=120.0) for i in range(4)] + [
         Part("small", strategy=lambda t: common.model_case(guard=1500 if t == "quick" else 6000, depth=3 if t == "quick" else 4,
                                                            profile="small"),
              check=check_model, quick=(6, 400), thorough=(12, 2500)),
